@@ -26,7 +26,8 @@ ASSUMPTIONS = ["B=1024 (quick) / 4096 (thorough) nested paths, 6-7 dyadic step s
                "closed forms are cross-checked against fine-grid solves by two different solvers (vt/closed_forms.py)",
                "non-commutative general noise: reference = same solver at dt_min/16 on the same Brownian object"]
 REQUIRED_COUNTERS = ["fixed_cases", "adaptive_cases", "adaptive_binding_pairs", "adaptive_monotone_pairs", "fine_reference_cases", "levels_measured", "ito_corr_crosscheck",
-                     "fixed_cases_with_offgrid_intermediate_outputs", "adaptive_cases_via_sdeint_adjoint"]
+                     "fixed_cases_with_offgrid_intermediate_outputs", "adaptive_cases_via_sdeint_adjoint",
+                     "float32_ladders"]
 THRESHOLDS = {"margin_quick": 0.25, "margin_thorough": 0.2}
 
 
@@ -99,8 +100,17 @@ def run_fixed(case):
     levy = zoo.levy_for(cell["method"])
     if getattr(fam, "needs_U", False) and levy == "none":
         levy = "space-time"
+    # single precision: the same ladder with float32 state and Brownian motion (closed-form families only; levels up to
+    # 2^-7 so that the discretisation error stays far above float32 rounding). Orders must not depend on the dtype.
+    f32 = case["kind"] == "fixed" and cell["method"] != "srk" and rng.random() < 0.2
+    bm_dtype = torch.float64
+    fam_run = fam
+    if f32:
+        cnt["float32_ladders"] = 1
+        fam_run, y0, bm_dtype = cf.Float32View(fam), y0.float(), torch.float32
+        levels = [k for k in levels if k <= 7]
     base = torchsde.BrownianInterval(t0=t0, t1=t0 + T, size=(B, fam.m), entropy=entropy, levy_area_approximation=levy,
-                                     cache_size=None if rng.random() < 0.5 else 45)
+                                     cache_size=None if rng.random() < 0.5 else 45, dtype=bm_dtype)
     ts = [t0, t0 + T]
     # a share of the ladders also requests outputs at a few intermediate times OFF every step grid of the ladder (they
     # are read by interpolation and are not compared - interpolation is only O(sqrt(dt)) accurate); the final state must
@@ -116,13 +126,13 @@ def run_fixed(case):
             rec = probes.RecordingBrownian(base)
             pr = probes.SolverProbe(keep_states=False)
             with pr.installed():
-                ys = zoo.solve(cell, fam, y0, ts, dt, bm=rec)
+                ys = zoo.solve(cell, fam_run, y0, ts, dt, bm=rec)
             order = float(pr.solvers[0].strong_order)
             tensor_ts = torch.tensor(ts)
             if not _tiles(rec.log, float(tensor_ts[0]), float(tensor_ts[-1])):
                 viol.append({"mechanism": "consumed_increments_do_not_tile_interval",
                              "detail": f"{zoo.cell_name(cell)} dt={dt} first queries {rec.log[:3]}"})
-            sols.append(ys[-1])
+            sols.append(ys[-1].double())
             dts.append(dt)
         if case["kind"] == "fixed":
             exact = cf.exact_on_path(fam, base, t0, t0 + T, y0)
@@ -133,11 +143,20 @@ def run_fixed(case):
     cnt["levels_measured"] = len(errs)
     cnt["fixed_cases"] = 1
     margin = THRESHOLDS["margin_" + tier]
+    if f32:
+        # float32: only levels whose error is well above single-precision rounding (3e-5 relative to the solution's
+        # scale) say anything about the order; fewer than three such levels -> the ladder is not judged
+        floor = 3e-5 * (1 + float(exact.abs().max()))
+        keep = [i for i, e in enumerate(errs) if e > floor]
+        if len(keep) < 3:
+            return {"violations": viol, "counters": dict(cnt, float32_ladders_at_rounding_floor=1), "max": mx,
+                    "nontrivial": False, "sample": {"cell": zoo.cell_name(cell), "float32": True, "errors": errs}}
+        errs, dts, levels = [errs[i] for i in keep], [dts[i] for i in keep], [levels[i] for i in keep]
     slope = _slope(dts, errs)
     name = case.get("family", "noncommutative")
     mx[f"deficit_{zoo.cell_name(cell)}"] = order - slope
     ctx = (f"cell={zoo.cell_name(cell)} family={name} advertised={order} slope={slope:.3f} "
-           f"errors={[f'{e:.3e}' for e in errs]} dts=2^-{levels} t0={t0} T={T} B={B}")
+           f"errors={[f'{e:.3e}' for e in errs]} dts=2^-{levels} t0={t0} T={T} B={B} float32={f32}")
     trivial = errs[0] < 1e-11
     if not trivial:
         if not slope >= order - margin:
@@ -146,7 +165,7 @@ def run_fixed(case):
         bound = (0.2 if order < 1 else 0.05) * scale
         if not errs[-1] <= bound:
             viol.append({"mechanism": f"does_not_converge_to_true_solution:{zoo.cell_name(cell)}", "detail": ctx})
-    return {"violations": viol, "counters": cnt, "max": mx, "nontrivial": not trivial and len(errs) >= 5,
+    return {"violations": viol, "counters": cnt, "max": mx, "nontrivial": not trivial and len(errs) >= (3 if f32 else 5),
             "sample": {"cell": zoo.cell_name(cell), "family": name, "advertised": order, "slope": round(slope, 3),
                        "errors": [float(f"{e:.3e}") for e in errs]}}
 
